@@ -10,6 +10,10 @@ def plan(tier, seed):
   evs = rs.events(tier)
   depth = 3 if tier == 'quick' else 4
   cases = [{'first': i, 'depth': 3, 'tier': tier} for i in range(len(evs))]
+  # a reduced alphabet (13 events) to depth 5: longer histories (re-adding '*'
+  # after other regexes were inserted, ...)
+  cases = [{'first': i, 'depth': 5, 'tier': 'mini'}
+           for i in range(len(rs.events('mini')))] + cases
   if tier == 'thorough':
     # depth 4 over the quick alphabet, depth 3 over the extended one
     cases = [{'first': i, 'depth': 4, 'tier': 'quick'}
